@@ -22,16 +22,19 @@ def sh(cmd, **kw):
 
 
 def main():
+    own_only = "--own" in sys.argv
+    if own_only:
+        sys.argv.remove("--own")
     ids = sys.argv[1:] or sorted(d for d in os.listdir(os.path.join(VERIF, "seeded")) if os.path.isdir(os.path.join(VERIF, "seeded", d)))
-    wt = "/tmp/mx-wt"
+    wt = "/tmp/mx-wt" + ("-own" if own_only else "")
     sh(f"git -C /repo worktree remove --force {wt}")
     sh(f"git -C /repo worktree add --detach {wt} HEAD")
-    out_path = os.path.join(VERIF, "seeded", "MATRIX.json")
+    out_path = os.path.join(VERIF, "seeded", "MATRIX-own.json" if own_only else "MATRIX.json")
     matrix = json.load(open(out_path)) if os.path.exists(out_path) else {}
     head = sh("git -C /repo rev-parse --short HEAD").stdout.strip()
     try:
         for sid in ids:
-            prop = sid.split("-")[0]
+            prop = [x for x in sid.split("-") if x.startswith("C") and x[1:].isdigit()][0]
             patch = os.path.join(VERIF, "seeded", sid, "patch.diff")
             sh(f"git -C {wt} checkout -- . && git -C {wt} clean -fdq")
             r = sh(f"git -C {wt} apply {patch}")
@@ -41,9 +44,9 @@ def main():
                 matrix[sid] = row
                 print(sid, "DOES NOT APPLY", flush=True)
                 continue
-            checks = [prop] + [c for c in GROUPS[GROUP_OF[prop]] if c != prop]
+            checks = [prop] + ([] if own_only else [c for c in GROUPS[GROUP_OF[prop]] if c != prop])
             for c in checks:
-                env = dict(os.environ, VERIF_REPO=wt, VERIF_EVIDENCE_DIR="/tmp/mx-ev", VERIF_REPLAY_DIR="/tmp/mx-rp")
+                env = dict(os.environ, VERIF_REPO=wt, VERIF_EVIDENCE_DIR=wt + "-ev", VERIF_REPLAY_DIR=wt + "-rp")
                 p = subprocess.run(f"cd {VERIF} && ./check {c} --tier quick", shell=True, capture_output=True, text=True, env=env)
                 if p.returncode == 1 and "VIOLATION property=" in p.stdout:
                     keys = [l.strip()[4:] for l in p.stdout.splitlines() if l.strip().startswith("key=")][:3]
